@@ -10,15 +10,18 @@ TB = ("Trusted: Lean 4.33.0 kernel, axioms propext/Classical.choice/Quot.sound o
 CHECKS = {
  "C01": dict(
   technique="Lean 4 theorem (generalised-Cauchy MDS via polynomial root counting) + proved certificate run on extracted generators",
-  text="Proof: C01_cauchy, C01_xor, C01_default quantify over all (d,p) with d+p<=256 and all survivor sets (no enumeration): "
-       "a degree<d polynomial with d roots is zero; the default generator is proved equal to the Lagrange matrix through the "
-       "proved Gaussian elimination. Jerasure and Leopard GF(2^8) are decided per configuration by running the proved checkers "
+  text="Proof: C01_cauchy, C01_xor, C01_default, C01_jerasure quantify over all (d,p) with d+p<=256 and all survivor sets (no "
+       "enumeration): a degree<d polynomial with d roots is zero; the default generator is proved equal to the Lagrange matrix "
+       "through the proved Gaussian elimination; the Jerasure builder (modified Vandermonde with a point at infinity, pivot "
+       "search, column scaling/elimination, two normalisation passes - modelled literally) keeps 'any d rows independent' "
+       "through every operation, its pivot search never fails, its top is the identity and its first parity row/column are "
+       "ones. Leopard GF(2^8)/GF(2^16) are decided per configuration by running the proved checkers "
        "(C01_certGC, C01_leo8_cert, C01_leo16_cert: certificate = true -> MDS; Leopard's fields are GF256 / GF65536 under the "
        "Cantor map, C17leo_toGF / C17gf16_toGF, so an MDS image means any d symbols computed in Leopard's own arithmetic "
        "determine the message, C01_leo8_any_d / C01_leo16_any_d) in "
        "the compiled driver. Tie: generators extracted from the real encoder (Encode of unit vectors) must equal the model's.",
-  note=TB + " Modelled not verified: that Encode applies this generator column-wise (C03). Jerasure closed form not proved "
-       "in general (certificate per explored configuration; all 21,845 Leopard GF8 pairs in the thorough tier). Leopard GF16: "
+  note=TB + " Modelled not verified: that Encode applies this generator column-wise (C03). Leopard: no general theorem that the FFT schedule "
+       "emits the Lagrange code (certificate per explored configuration; all 21,845 Leopard GF8 pairs in the thorough tier). Leopard GF16: "
        "certificate per explored configuration up to 400,000 generator entries, above that equality with the Lagrange closed "
        "form on sampled columns and C05's reconstructions.",
   design="4/C01"),
@@ -78,7 +81,9 @@ CHECKS = {
        "single byte change in any shard at any offset is detected), excluded points p=0 and zero columns stated as theorems. Tie: "
        "Verify on encoded sets with every (shard, offset) flipped for short shards (all SIMD tails) and boundary/random offsets "
        "of large shards, all 255 deltas; shards hashed before/after.",
-  note=TB + " Matrix codec only in this check; Leopard and stream Verify are exercised in C04/C14.",
+  note=TB + " Leopard GF8/GF16 Verify is exercised here by execution against the schedule model (every shard of shapes incl. "
+       "p > d, sizes straddling the 32 KiB chunk); the theorems are about an MDS generator, which for Leopard is the "
+       "per-configuration certificate of C01. Stream Verify is exercised in C14.",
   design="4/C06"),
  "C07": dict(
   technique="Lean 4 theorems: the range splitting is a partition for all option values; four builds x option matrix x GOMAXPROCS vs one L0 answer",
@@ -89,7 +94,8 @@ CHECKS = {
        "agree; C07_derive_positive etc.: the parameters New derives (perRound, minSplitSize, maxGoroutines) are positive for every "
        "cpuid cache size, thread topology, GOMAXPROCS >= 1 and option record, which discharges the hypotheses of the range "
        "theorems. Tie: the derived parameters of real encoders = RSV.Model.Options.derive under GOMAXPROCS 1/2/5/16; "
-       "one op file (Encode/Verify/Reconstruct/EncodeIdx/Update, sizes around every threshold, tails 0..63) through "
+       "one op file (Encode/Verify/Reconstruct/EncodeIdx/Update of the matrix codec, sizes around every threshold, tails 0..63; "
+       "Encode/Reconstruct/Verify of Leopard GF8 and GF16 vs the schedule model) through "
        "the default, noasm, nopshufb and nounsafe builds under GOMAXPROCS 1/2/16 with a 24-row option matrix, all compared "
        "with the single option-free L0 answer.",
   note=TB + " cpuid detection and the option->path mapping are exercised, not modelled; kernels meet their contract by C08; the "
